@@ -4,6 +4,7 @@ import Hw.Io.Xml
 import Hw.Io.Base64
 import Hw.Io.XmlObj
 import Hw.Io.XmlTree
+import Hw.Io.XmlSide
 import Driver.Topo
 namespace Driver.XmlRtEng
 open Hw Hw.Xml Hw.Topo Driver
@@ -22,6 +23,13 @@ def parseHexBytes (s : String) : Option (List Nat) :=
 def hexOfBytes (l : List Nat) : String :=
   if l.isEmpty then "=" else String.ofList (l.flatMap (fun b => [hexChar (b / 16 % 16), hexChar (b % 16)]))
 
+/-- the side structures of one topology as the S* lines of the harness describe them -/
+structure SideObs where
+  dists : List Hw.XmlSide.Dist := []
+  mas : List Hw.XmlSide.MemAttr := []
+  kinds : List Hw.XmlSide.Kind := []
+  infos : List (List Nat × List Nat) := []
+
 structure St where
   part : TopoEng.Partial := {}
   orig : Option Dump := none
@@ -34,6 +42,11 @@ structure St where
   tos : List (Nat × String × Hw.XmlTree.Node) := []             -- objects of the original
   trs : List (Nat × String × Hw.XmlTree.Node) := []             -- objects of the reloaded topology
   tbad : Bool := false
+  se : List (Nat × Hw.XmlTree.Elem) := []                       -- SIDE stream, reversed: elements after the root object
+  so : SideObs := {}                                            -- side structures of the original
+  sr : SideObs := {}                                            -- ... of the reloaded topology
+  sbad : Bool := false
+  sskip : Option String := none
 
 /-- sanitise the `h:` tokens of an X line of the original (strings that go through hwloc__xml_export_safestrdup) -/
 def sanitizeTok (t : String) : String :=
@@ -280,6 +293,129 @@ def judgeTree (s : St) : String :=
 
 end TreeStream
 
+
+/-! ### side-structure stream -/
+section SideStream
+open Hw.XmlObj Hw.XmlTree Hw.XmlSide
+
+def parseTI (s : String) : Option (Nat × Nat) :=
+  match s.splitOn ":" with
+  | [t, i] => do let t ← parseNat t; let i ← parseNat i; pure (t, i)
+  | _ => none
+
+/-- `<hetero> <utype|-> <kind> <name|-> <n> (<type>:<index>){n} <value>{n*n}` -/
+def parseDist (t : List String) : Option Dist :=
+  match t with
+  | het :: ut :: kind :: name :: n :: rest => do
+    let kind ← parseNat kind; let name ← parseHexOpt name; let n ← parseNat n
+    if rest.length ≠ n + n * n then none
+    let items ← (rest.take n).mapM parseTI
+    let vals ← (rest.drop n).mapM parseNat
+    if het = "1" then
+      if ut ≠ "-" then none else pure { types := some (items.map (·.1)), kind := kind, name := name, idx := items.map (·.2), values := vals }
+    else if het = "0" then do
+      let u ← parseNat ut
+      pure { utype := some u, kind := kind, name := name, idx := items.map (·.2), values := vals }
+    else none
+  | _ => none
+
+def parseInits (n : Nat) (t : List String) : Option (List (Init × Nat) × List String) :=
+  (List.range n).foldlM (fun (acc : List (Init × Nat) × List String) _ =>
+    match acc.2 with
+    | i :: v :: r => do
+      let v ← parseNat v
+      let i ← (if i.startsWith "c" then (parseHex (i.drop 1).toString).map Init.cpuset
+               else if i.startsWith "o" then (parseTI (i.drop 1).toString).map (fun p => Init.obj p.1 p.2) else none)
+      pure (acc.1 ++ [(i, v)], r)
+    | _ => none) ([], t)
+
+/-- `<type> <gp> <value> <ninit> (c<set>|o<type>:<gp> <value>)*` -/
+def parseTarget (t : List String) : Option MTarget :=
+  match t with
+  | ty :: gp :: v :: ni :: rest => do
+    let ty ← parseNat ty; let gp ← parseNat gp; let v ← parseNat v; let ni ← parseNat ni
+    let (inits, r) ← parseInits ni rest
+    if r ≠ [] then none else pure { type := ty, gp := gp, value := v, inits := inits }
+  | _ => none
+
+def parseKind (t : List String) : Option Kind :=
+  match t with
+  | set :: eff :: n :: rest => do
+    let m ← parseHex set; let eff ← parseInt eff; let n ← parseNat n
+    let (infos, r) ← parsePairs n rest
+    if r ≠ [] then none else pure { cpuset := m, eff := eff, infos := infos }
+  | _ => none
+
+def sideLine (o : SideObs) (op : String) (t : List String) : Option SideObs :=
+  if op = "SD" then (parseDist t).map (fun d => { o with dists := o.dists ++ [d] })
+  else if op = "SM" then
+    match t with
+    | [id, name, flags, _] => do
+      let id ← parseNat id; let name ← parseHexBytes name; let flags ← parseNat flags
+      if id ≠ o.mas.length then none else pure { o with mas := o.mas ++ [{ name := name, flags := flags }] }
+    | _ => none
+  else if op = "ST" then do
+    let tg ← parseTarget t
+    match o.mas.reverse with
+    | a :: r => pure { o with mas := (({ a with targets := a.targets ++ [tg] }) :: r).reverse }
+    | [] => none
+  else if op = "SK" then (parseKind t).map (fun k => { o with kinds := o.kinds ++ [k] })
+  else if op = "SI" then
+    match t with
+    | n :: rest => do
+      let n ← parseNat n
+      let (infos, r) ← parsePairs n rest
+      if r ≠ [] then none else pure { o with infos := infos }
+    | _ => none
+  else none
+
+def showDist (d : Dist) : String :=
+  "dist(" ++ (match d.types with | some _ => "hetero" | none => "type" ++ toString (d.utype.getD 99)) ++ ",kind" ++ toString d.kind ++ ",n" ++
+  toString d.nbobjs ++ ",idx" ++ toString d.idx ++ ")"
+
+/-- the reloaded attribute of that name must have the imported flags and, as targets, what hwloc_internal_memattr_set_value builds
+    from the imported calls (`rebuild`) -/
+def memattrAgrees (r : List MemAttr) (a : MemAttrIn) : Bool :=
+  match a.name with
+  | none => false
+  | some nm =>
+    match r.find? (fun x => x.name == nm) with
+    | some x => x.flags == a.flags && decide (rebuild a.calls = x.targets)
+    | none => false
+
+def judgeSide (s : St) : String :=
+  if s.sbad then "SIDE FAIL unparsable-line"
+  else match s.sskip with
+  | some w => "SIDE ok skipped:" ++ w
+  | none =>
+    let forest := buildElems s.se.reverse
+    if forest.any (fun x => x.1 ≠ 0) then "SIDE FAIL malformed-stream" else
+    let real := (forest.map (·.2)).filter (fun e => e.tag ≠ tagSupport)
+    let o := s.so
+    let model := exportSide o.dists o.mas o.kinds o.infos
+    if flatElems 0 real != flatElems 0 model then "SIDE FAIL export-side:" ++ firstDiff showElem (flatElems 0 real) (flatElems 0 model)
+    else if !(o.dists.all distValid && o.mas.all memAttrValid && o.kinds.all kindValid) then "SIDE FAIL original-not-valid"
+    else match importSide (forest.map (·.2)) {} with
+      | .reject => "SIDE FAIL import:reject"
+      | .outside => "SIDE FAIL import:outside"
+      | .ok m =>
+        let expD := ((o.dists.filter (fun d => d.types.isNone)) ++ (o.dists.filter (fun d => d.types.isSome))).map normDist
+        let expM : List MemAttrIn := ((((List.range o.mas.length).zip o.mas).filter exported).map (fun ia =>
+                      { name := some ia.2.name, flags := ia.2.flags, calls := callsOf ia.2 }))
+        if decide (m.dists ≠ expD) then "SIDE FAIL import-distances-differ-from-original:" ++ firstDiff showDist m.dists expD
+        else if decide (m.memattrs ≠ expM) then "SIDE FAIL import-memattrs-differ-from-original"
+        else if decide (m.kinds ≠ o.kinds.map normKind) then "SIDE FAIL import-cpukinds-differ-from-normalised-original"
+        else if decide (m.infos ≠ o.infos.map sanPair) then "SIDE FAIL import-infos-differ-from-normalised-original"
+        else
+          let r := s.sr
+          if decide (m.dists ≠ r.dists) then "SIDE FAIL import-distances-differ-from-reloaded:" ++ firstDiff showDist r.dists m.dists
+          else if !(m.memattrs.all (memattrAgrees r.mas)) then "SIDE FAIL import-memattrs-differ-from-reloaded"
+          else if decide (m.kinds ≠ r.kinds) then "SIDE FAIL import-cpukinds-differ-from-reloaded"
+          else if decide (m.infos ≠ r.infos) then "SIDE FAIL import-infos-differ-from-reloaded"
+          else "SIDE ok"
+
+end SideStream
+
 def intStr (i : Int) : String := toString i
 
 def tgtOf (ts : Nat) : B64.Tgt := { cells := List.replicate ts 170 }
@@ -359,6 +495,23 @@ def step (s : St) (line : String) : St × String :=
          | .outside => "TMUT ok outside/" ++ st)
       | _ => "TMUT FAIL malformed-stream"
     ({ s with te := [] }, v)
+  | ["SB"] => ({ s with se := [], so := {}, sr := {}, sbad := false, sskip := none }, ".")
+  | ["SE", d, tag, raw, ct] =>
+    (match parseNat d, parseHexBytes tag, parseHexBytes raw, parseHexOpt ct with
+     | some d, some tag, some raw, some ct =>
+       ({ s with se := (d, Hw.XmlTree.Elem.mk tag (scanAttrs (raw.length + 1) raw) ct []) :: s.se }, ".")
+     | _, _, _, _ => ({ s with sbad := true }, "bad-op"))
+  | "SX" :: _ :: w :: _ => ({ s with sskip := some w }, ".")
+  | ["SU", _, st] =>
+    let v := if s.sbad then "SMUT FAIL unparsable-line" else
+      let forest := buildElems s.se.reverse
+      if forest.any (fun x => x.1 ≠ 0) then "SMUT FAIL malformed-stream" else
+      (match Hw.XmlSide.importSide (forest.map (·.2)) {} with
+       | .reject => if st = "0" then "SMUT FAIL the-model-rejects-a-document-that-hwloc-loads" else "SMUT ok reject/" ++ st
+       | .ok _ => "SMUT ok accept/" ++ st
+       | .outside => "SMUT ok outside/" ++ st)
+    ({ s with se := [] }, v)
+  | ["SJ"] => ({ s with se := [], so := {}, sr := {} }, judgeSide s)
   | ["TJ"] => ({ s with te := [], tos := [], trs := [] }, judgeTree s)
   | "CASE" :: _ => ({}, ".")
   | "OP" :: _ => (s, ".")
@@ -397,6 +550,14 @@ def step (s : St) (line : String) : St × String :=
         if tag = "o" then ({ s with part := p', orig := some d }, ".")
         else if tag = "r" then ({ s with part := p', reload := some d }, ".")
         else ({ s with part := p' }, "bad-op")
+    | op :: tg :: rest =>
+      if ["SD", "SM", "ST", "SK", "SI"].contains op && (tg = "o" || tg = "r") then
+        (match sideLine (if tg = "o" then s.so else s.sr) op rest with
+         | some o => ((if tg = "o" then { s with so := o } else { s with sr := o }), ".")
+         | none =>
+           if rest.any (fun x => x.startsWith "cI") then ({ s with sskip := some "infinite-set" }, ".")
+           else ({ s with sbad := true }, "bad-op"))
+      else (s, "bad-op")
     | _ => (s, "bad-op")
 
 end Driver.XmlRtEng
